@@ -144,6 +144,10 @@ def main():
              "kind_free_text": "TLC 1.8.0: exhaustive model checking of the TLA+ specifications, input generation, and trace validation of recorded executions"},
             {"name": "driver", "path": "harness/driver", "serves_properties": [c["property_id"] for c in checks],
              "kind_free_text": "Go conformance driver injected into /repo's module with go build -overlay (nothing written to /repo); restartable isolated worker processes with watchdog"},
+            {"name": "apalache", "path": "/opt/veriftools/apalache/bin/apalache-mc", "serves_properties": ["C18"],
+             "kind_free_text": "Apalache 0.58.0: inductive invariant of the monitor life-cycle (MonitorInd.tla), histories of any length"},
+            {"name": "go race detector", "path": "go build -race", "serves_properties": ["C15"],
+             "kind_free_text": "the driver built with -race runs the concurrent batches; a race report is a violation (the TLA+ interleaving model over the extracted shared-state table only nominates candidates)"},
         ],
         "checks": checks,
         "not_applicable": na,
